@@ -21,6 +21,7 @@ def outBar (s : TrueRange F) (b : Bar F) : F :=
 
 theorem next_eq (s : TrueRange F) (x : F) : s.next x = some ({ prev_close := some x }, out s x) := by
   unfold next out
+  try simp only [gen_helper]
   cases s.prev_close <;> rfl
 
 theorem nextBar_eq (s : TrueRange F) (b : Bar F) :
